@@ -79,7 +79,8 @@ Definition sym_eig2 (c : mat2 T) : (T * T) * mat2 T :=
   let rt := nsqrt N (df * df + ntwo N * ntwo N * (b * b)) in
   let l0 := nhalf N * (tr + rt) in
   let l1raw := if nltb N ZZ l0 then (a * d - b * b) / l0 else ZZ in
-  let l1 := if nltb N l1raw ZZ then ZZ else l1raw in
+  let l1c := if nltb N l1raw ZZ then ZZ else l1raw in
+  let l1 := if nltb N l0 l1c then l0 else l1c in
   (* eigenvector of l0: (l0 - d, b) or (b, l0 - a), whichever is longer *)
   let x1 := l0 - d in let y1 := b in
   let x2 := b in let y2 := l0 - a in
